@@ -373,3 +373,66 @@ Definition g_host_sees (script_methods : list str) (q : wprobe) : bool :=
   | WMethod m => mem m script_methods
   | WComparable => true
   end.
+
+(* ------------------------------------------------------------------ *)
+(** * Script types that embed host interfaces / host types, handed to the host as a host interface *)
+
+(** Who runs a method the host calls on the value it was handed. *)
+Inductive who :=
+| WScript      (* the script's override *)
+| WHost        (* the embedded host value's method (promotion) *)
+| WBoth        (* the script's override, which delegates to the embedded value *)
+| WFailBuild   (* genInterfaceWrapper panics "method not found": nothing is called at all *)
+| WFailCall    (* the call panics (reflect.StructOf's stub for a method of an embedded interface) *)
+| WNone.       (* not reached *)
+
+Inductive layout := LOnly | LFirst | LLast.   (* the embedded field is the only one / first / last *)
+
+(** What genInterfaceWrapper's decisions depend on. The last three are facts about [reflect],
+    measured natively by the harness on a reconstruction of the frame type (reflect is assumed: e.g.
+    StructOf hands back a compiled type of the host binary, with real methods, when one exists). *)
+Record efacts := {
+  ef_ptr : bool;          (* the value handed over is a *T *)
+  ef_layout : layout;
+  ef_implements : bool;   (* reflect: the frame type (T or *T) implements the host interface *)
+  ef_nummeth : bool;      (* reflect: the struct type has (promoted) methods: single embedded field *)
+  ef_real : bool          (* reflect: those promoted methods can be called (not panicking stubs) *)
+}.
+
+(** genInterfaceWrapper (run.go): a non-struct value whose frame type implements the interface is
+    handed over as it is — reflect then dispatches to the promoted methods and the script's overrides
+    are skipped; a struct value always gets the wrapper: an overridden method is bound to the script's
+    method; for any other, methodByName looks on the "concrete value" — the value itself if its reflect
+    type has methods, else (getConcreteValue) its LAST field; through a pointer the embedded field
+    is reached by its index. *)
+Definition y_one (f : efacts) (over : list str) (delegate : bool) (m : str) : who :=
+  if ef_ptr f && ef_implements f then (if ef_real f then WHost else WFailCall)
+  else if mem m over then (if delegate then WBoth else WScript)
+  else if ef_ptr f then WHost
+  else if ef_nummeth f then (if ef_real f then WHost else WFailCall)
+  else match ef_layout f with LFirst => WFailBuild | _ => WHost end.
+
+Definition is_failbuild (w : who) : bool := match w with WFailBuild => true | _ => false end.
+
+(** The host calls the methods in order; a panicking call ends the use. *)
+Fixpoint run_calls (l : list who) (failed : bool) : list who * bool :=
+  match l with
+  | [] => ([], failed)
+  | w :: l' =>
+      if failed then let (r, b) := run_calls l' true in (WNone :: r, b)
+      else match w with
+           | WFailCall => let (r, b) := run_calls l' true in (WNone :: r, b)
+           | _ => let (r, b) := run_calls l' false in (w :: r, b)
+           end
+  end.
+
+Definition y_dispatch (f : efacts) (over : list str) (delegate : bool) (methods : list str) : list who * bool :=
+  let ws := map (y_one f over delegate) methods in
+  if existsb is_failbuild ws then (map (fun _ => WNone) methods, true) else run_calls ws false.
+
+(** Go: the method set of T / *T — an override shadows the promoted method. *)
+Definition g_one (over : list str) (delegate : bool) (m : str) : who :=
+  if mem m over then (if delegate then WBoth else WScript) else WHost.
+
+Definition g_dispatch (over : list str) (delegate : bool) (methods : list str) : list who * bool :=
+  (map (g_one over delegate) methods, false).
